@@ -124,12 +124,19 @@ def _alarm(signum, frame):
     raise _Timeout()
 
 
+def _budget(on):
+    """5 s of the process' own CPU time (parsing is CPU work; independent of how busy the machine is), and two
+    minutes of wall-clock time as a backstop for a call that waits instead of computing"""
+    signal.setitimer(signal.ITIMER_VIRTUAL, 5.0 if on else 0)
+    signal.setitimer(signal.ITIMER_REAL, 120.0 if on else 0)
+
+
 def _timed(fn):
     """runs one outcome function under the time budget; a call during which the budget ran out is a timeout"""
     def run_(args):
         _W['fired'] = False
         cid, out = fn(args)
-        signal.setitimer(signal.ITIMER_REAL, 0)
+        _budget(False)
         if _W['fired']:
             return cid, {'out': 'timeout'}
         return cid, out
@@ -144,6 +151,7 @@ def _init():
     import hszinc.zincparser as zp
     _W['ZPE'] = zp.ZincParseException
     signal.signal(signal.SIGALRM, _alarm)
+    signal.signal(signal.SIGVTALRM, _alarm)
 
 
 def _outcome_raw(args):
@@ -151,12 +159,12 @@ def _outcome_raw(args):
     single = len(args) > 2 and args[2]
     hs, A, ZPE = _W['hs'], _W['A'], _W['ZPE']
     s = ''.join(chr(c) for c in text)
-    signal.setitimer(signal.ITIMER_REAL, 5.0)
+    _budget(True)
     try:
         res = hs.parse(s, mode=hs.MODE_ZINC, single=single)
         if single:
             res = [] if res is None else [res]
-        signal.setitimer(signal.ITIMER_REAL, 0)
+        _budget(False)
         try:
             return cid, {'out': 'grid', 'abs': A.doc(res)}
         except absval.NotAbstractable as e:
@@ -164,14 +172,14 @@ def _outcome_raw(args):
     except _Timeout:
         return cid, {'out': 'timeout'}
     except ZPE as e:
-        signal.setitimer(signal.ITIMER_REAL, 0)
+        _budget(False)
         ok = isinstance(e, ValueError) and isinstance(e.line, int) and isinstance(e.col, int)
         if not ok:
             return cid, {'out': 'other', 'exc': 'ZincParseException with bad fields'}
         gtext = e.grid_str if isinstance(e.grid_str, str) else s
         return cid, {'out': 'zpe', 'line': e.line, 'col': e.col, 'gtext': [ord(c) for c in gtext]}
     except BaseException as e:
-        signal.setitimer(signal.ITIMER_REAL, 0)
+        _budget(False)
         return cid, {'out': 'other', 'exc': type(e).__name__ + ': ' + str(e)[:120]}
 
 
@@ -187,18 +195,18 @@ def _scalar_outcome_raw(args):
     cid, text, ver = args
     hs = _W['hs']
     s = ''.join(chr(c) for c in text)
-    signal.setitimer(signal.ITIMER_REAL, 5.0)
+    _budget(True)
     try:
         hs.parse_scalar(s, mode=hs.MODE_ZINC, version=ver)
-        signal.setitimer(signal.ITIMER_REAL, 0)
+        _budget(False)
         return cid, {'out': 'value'}
     except _Timeout:
         return cid, {'out': 'timeout'}
     except ValueError:
-        signal.setitimer(signal.ITIMER_REAL, 0)
+        _budget(False)
         return cid, {'out': 'valueerror'}
     except BaseException as e:
-        signal.setitimer(signal.ITIMER_REAL, 0)
+        _budget(False)
         return cid, {'out': 'other', 'exc': type(e).__name__ + ': ' + str(e)[:120]}
 
 
